@@ -702,7 +702,9 @@ def annotation_and_histogram(repo, chk):
         if isinstance(n, ast.Assign) and isinstance(n.targets[0], ast.Name) and n.targets[0].id.startswith('card_'):
             t = term_of(fn, n.value, inline=False)
             feat = 'feature_first' if 'first' in n.targets[0].id else 'feature_second'
-            chk.expect(t == E(f'str(len(cardinality_object[{feat}]))'), 'C13.5d', 'R15', fn.site(n), ast.unparse(n), 'annotation shows len(sketch) of that feature', f'cardinality annotation must be str(len(cardinality_object[{feat}])); found {show(t)[:100]}')
+            # an integer interpolated into an f-string is formatted like str() of it
+            only_fmt = all(isinstance(parents(fn.node).get(x), ast.FormattedValue) for x in own_nodes(fn.node) if isinstance(x, ast.Name) and x.id == n.targets[0].id and isinstance(x.ctx, ast.Load))
+            chk.expect(t == E(f'str(len(cardinality_object[{feat}]))') or (only_fmt and t == E(f'len(cardinality_object[{feat}])')), 'C13.5d', 'R15', fn.site(n), ast.unparse(n), 'annotation shows len(sketch) of that feature', f'cardinality annotation must be str(len(cardinality_object[{feat}])); found {show(t)[:100]}')
             found += 1
         if isinstance(n, ast.Assign) and isinstance(n.targets[0], ast.Name) and n.targets[0].id.startswith('cov_'):
             t = term_of(fn, n.value, inline=False)
